@@ -20,6 +20,8 @@
 
 #include "common.hpp"
 
+thread_local bool t_shim_bypass = false;
+
 #ifdef VERIF_SAN
 extern "C" void* __asan_region_is_poisoned(void* beg, size_t size);
 #endif
@@ -204,6 +206,7 @@ int sqlite3_step(sqlite3_stmt* s)
 int inflate(z_streamp strm, int flush)
 {
     static auto fn = real<int (*)(z_streamp, int)>("inflate");
+    if (t_shim_bypass) return fn(strm, flush);
     ++g_shim.inflate_calls;
 #ifdef VERIF_SAN
     if (strm && strm->avail_in > 0 && strm->next_in)
